@@ -46,6 +46,13 @@ CLAIMS['C06'] = ('proof', 'Lean 4 theorems about an abstract machine of blocking
     'all transposes: compared exactly. Route choice: real _makeConnectionMap in interpreters with different PYTHONHASHSEED, compared with each other, with the model under '
     'several tie-break orders, and with a BFS shortest-path oracle. Also run: grid reductions/figure blocks with a plot-only rank, and the real driver for one step.',
     NOTE_COMMON + ' Real MPI semantics (blocking collectives matched per communicator in program order) are assumed; route determinism is established by correspondence + oracle, not by a theorem.', 'DESIGN.md 4/C06')
+CLAIMS['C05'] = ('proof', 'Lean 4 theorems on a model of the grid-level loops (which index expressions reach the kernels) + exact wiring-trace correspondence on the real operators + end-to-end serial-vs-parallel oracle',
+    'wiring_flux / wiring_vpar / wiring_pargrad / wiring_poloidal / wiring_density / wiring_solve / wiring_init: for every layout, process grid and rank each kernel call gets the '
+    'parameters of its slice\'s own global coordinates; gridop_decomposition_independent: hence the assembled global result equals kern(T g)(F g) for every number of ranks (kernel '
+    'arbitrary), serial_run; flux_wiring_defect / vpar_wiring_defect: the pre-fix index expressions violate it. The real operators run on forced process grids with wrapped kernels; '
+    'every call (global slice, global parameter indices) is compared exactly with the model call list. Independent oracle: initial distribution, each operator on random fields and two '
+    'full driver steps on every listed process grid vs the serial run (bit-identity recorded, rounding-level agreement required).',
+    NOTE_COMMON + ' Kernels are uninterpreted in the theorems; layout changes enter through C01/C03; arrival orders through C06.', 'DESIGN.md 4/C05')
 PENDING = {
 }
 ALL = ['C%02d' % i for i in range(1, 21)]
